@@ -471,7 +471,7 @@ func assumedFrames(e *Engine, keys []string) []string {
 			seen[cal] = true
 		}
 	}
-	var r []string
+	r := []string{}
 	for k := range seen {
 		sp := e.Specs.Funcs[k]
 		if sp == nil || !sp.HasAssigns {
